@@ -406,9 +406,10 @@ func vintAlts(t reflect.Type) []valt {
 }
 
 var vstr300 = strings.Repeat("a", 300)
+var vstr127 = strings.Repeat("b", 127) // n+1 = 128: first length whose compact (uvarint n+1) prefix needs two bytes
 
 func vstringAlts(t reflect.Type) []valt {
-	return []valt{{"empty", vconv(t, ""), true}, {"1char", vconv(t, "x"), true}, {"nonascii", vconv(t, "é☃\x00"), true}, {"300", vconv(t, vstr300), true}}
+	return []valt{{"empty", vconv(t, ""), true}, {"1char", vconv(t, "x"), true}, {"nonascii", vconv(t, "é☃\x00"), true}, {"127", vconv(t, vstr127), true}, {"300", vconv(t, vstr300), true}}
 }
 
 func (g *vgen) leafAlts(v reflect.Value, path string) (string, []valt) {
@@ -454,7 +455,7 @@ func (g *vgen) walk(v reflect.Value, path string, commit func(), inRec bool) {
 		if t.Elem().Kind() == reflect.String {
 			e := func(s string) reflect.Value { p := reflect.New(t.Elem()); p.Elem().SetString(s); return p }
 			g.addSlot(&vslot{path: path, kind: "nstring", v: v, commit: commit, inRecords: inRec, alts: []valt{
-				{"nil", reflect.Zero(t), true}, {"empty", e(""), true}, {"1char", e("x"), true}, {"nonascii", e("é☃\x00"), true}, {"300", e(vstr300), true}}})
+				{"nil", reflect.Zero(t), true}, {"empty", e(""), true}, {"1char", e("x"), true}, {"nonascii", e("é☃\x00"), true}, {"127", e(vstr127), true}, {"300", e(vstr300), true}}})
 			return
 		}
 		if t.Elem() == vtBroker {
@@ -472,9 +473,10 @@ func (g *vgen) walk(v reflect.Value, path string, commit func(), inRec bool) {
 			for i := range b300 {
 				b300[i] = byte(i)
 			}
+			b127, b64 := b300[100:227], b300[30:94] // 127: compact boundary; 64: first zig-zag varint length needing two bytes
 			g.addSlot(&vslot{path: path, kind: "bytes", v: v, commit: commit, inRecords: inRec, alts: []valt{
 				{"nil", reflect.Zero(t), true}, {"empty", reflect.ValueOf([]byte{}), true}, {"1", reflect.ValueOf([]byte{0}), true},
-				{"2", reflect.ValueOf([]byte{0xff, 0}), true}, {"300", reflect.ValueOf(b300), true}}})
+				{"2", reflect.ValueOf([]byte{0xff, 0}), true}, {"64", reflect.ValueOf(b64), true}, {"127", reflect.ValueOf(b127), true}, {"300", reflect.ValueOf(b300), true}}})
 			return
 		}
 		// the collection itself
